@@ -91,6 +91,10 @@ def scale_items(families=None):
         for tag, prog in gen():
             yield k, tag, prog, argsets
             k += 1
+    if not families or 'entry' in families:
+        for tag, prog, args in scale.many_entry_programs():
+            yield k, tag, prog, [args]
+            k += 1
 
 
 def check_scale(res, prog, args, word, tag, unchecked=False, monitors=('san', 'bal', 'fall'), src=None):
